@@ -25,7 +25,11 @@
       8. Commit: calls only for valid entries, one per entry
          ([commit_sub]); logs of well-formed statements have at most one valid
          evict entry and one placing entry per pod ([once_ok]), hence at most one
-         call per kind and pod ([commit_once_run]) *)
+         call per kind and pod ([commit_once_run]).  Evict may be applied to any
+         Releasing pod (Statement.Evict leaves it alone since 83a0ca3 + bce7109, [noop_cmd]);
+         that a pod which is not Releasing has no valid evict entry is the
+         invariant [EI], proved together with [once_ok] ([once_step]) from what
+         each recorded command does to the pods ([frame_for]) *)
 Set Default Timeout 60.
 From Coq Require Import List ZArith PArith Bool Arith Lia ZifyBool.
 From KaiV Require Import Model.Res Model.Status Model.AMap Model.Node Model.NodeSpec Model.Session Proofs.Node.
@@ -1170,6 +1174,42 @@ Lemma undo_op_undo_evict a i k p prev nid pg pv a1 :
   undo_operation a i = (push a1 (OUndo i), true).
 Proof. intros V E Ek U. unfold undo_operation. rewrite fuel_of_S. cbn [exec]. rewrite V, E, Ek, U. reflexivity. Qed.
 
+(** * Statement.Evict and its status test *)
+Lemma releasing_in_eq s pid p : get_pod s pid = Some p -> releasing_in s pid = status_eqb (p_status p) Releasing.
+Proof. intros G. unfold releasing_in. rewrite G. reflexivity. Qed.
+
+(** on a pod that is not Releasing, Evict is what it was before the repair *)
+Lemma evict_unrepaired s pid : releasing_in s pid = false -> evict s pid = evict_before_repair s pid.
+Proof.
+  unfold releasing_in, evict, evict_before_repair. destruct (get_pod s pid) as [p|]; [|reflexivity].
+  intros E. rewrite E. reflexivity.
+Qed.
+
+(** on a Releasing pod, Evict changes nothing *)
+Lemma evict_releasing_id s pid : releasing_in s pid = true -> fst (evict s pid) = s.
+Proof.
+  unfold releasing_in, evict. destruct (get_pod s pid) as [p|]; [|discriminate].
+  intros E. rewrite E.
+  destruct (alookup (t_job (p_task p)) (s_jobs s)); [|reflexivity].
+  destruct (p_node p) as [nid|]; [|reflexivity].
+  destruct (alookup nid (s_nodes s)); reflexivity.
+Qed.
+
+(** commands that leave the session and the log alone: Evict of a Releasing pod *)
+Definition noop_cmd (s : sess) (c : cmd) : bool :=
+  match c with Evict pid => releasing_in s pid | _ => false end.
+
+Lemma noop_step fails s c : noop_cmd s c = true -> step fails s c = (s, []).
+Proof.
+  destruct c as [pid| | | | | | | |]; try discriminate. cbn [noop_cmd]. intros E.
+  unfold step, step_full. destruct (s_stuck s); [reflexivity|].
+  pose proof (evict_releasing_id s pid E) as I. destruct (evict s pid) as [s1 ok]. cbn [fst] in *. rewrite I. reflexivity.
+Qed.
+
+(** the pod a command operates on *)
+Definition cpod (c : cmd) : positive :=
+  match c with Evict p | Pipeline p _ _ _ | Allocate p _ _ | Unevict p => p | _ => 1%positive end.
+
 (** * What Rollback has appended so far *)
 Definition tk (n k : nat) (T : list op) : Prop :=
   (forall o, In o T -> match o with OUndo j => (k <= j < n)%nat | OEvict _ _ _ _ _ => True | _ => False end)
@@ -1385,18 +1425,17 @@ Section Sess.
 
   (** ** Evict, and its reverse applied to any related state *)
   Lemma wf_evict_facts stk s pid :
-    wf_cmd tok stk false s (Evict pid) = true ->
+    wf_cmd tok stk false s (Evict pid) = true -> releasing_in s pid = false ->
     exists p j nid n,
       get_pod s pid = Some p /\ p_id p = pid /\ tok (p_task p) = true /\ active_allocated (p_status p) = true
-      /\ Indexed s p j /\ no_valid_evict (s_log s) pid = true /\ has_placing (s_log s) pid = false
+      /\ Indexed s p j /\ has_placing (s_log s) pid = false
       /\ p_node p = Some nid /\ alookup nid (s_nodes s) = Some n /\ sorted_keys (n_pods n)
       /\ alookup pid (n_pods n) = Some (p_task p) /\ at_node_raw p nid = p.
   Proof.
-    unfold wf_cmd. cbn [negb andb]. destruct (get_pod s pid) as [p|]; [|discriminate].
-    intros H.
+    unfold wf_cmd, releasing_in. cbn [negb andb]. destruct (get_pod s pid) as [p|]; [|discriminate].
+    intros H Nr. rewrite Nr in H. cbn [orb] in H.
     apply andb_true_iff in H. destruct H as [H Hn].
     apply andb_true_iff in H. destruct H as [H Hp].
-    apply andb_true_iff in H. destruct H as [H Hv].
     apply andb_true_iff in H. destruct H as [H Hi].
     apply andb_true_iff in H. destruct H as [H Ha].
     apply andb_true_iff in H. destruct H as [Hid Ht].
@@ -1408,7 +1447,7 @@ Section Sess.
     destruct (indexed_facts _ _ Hi) as [j Ij].
     exists p, j, nid, n. apply Pos.eqb_eq in Hid. apply negb_true_iff in Hp.
     split; [reflexivity|]. split; [exact Hid|]. split; [exact Ht|]. split; [exact Ha|]. split; [exact Ij|].
-    split; [exact Hv|]. split; [exact Hp|]. split; [exact Epn|]. split; [exact En|].
+    split; [exact Hp|]. split; [exact Epn|]. split; [exact En|].
     split; [apply sortedb_sorted; exact Sd|]. split; [exact Ec|apply fresh_on_eq; exact Fr].
   Qed.
 
@@ -1443,14 +1482,14 @@ Section Sess.
   Ltac cq := unfold ev_dealloc, ev_alloc; rewrite ?cq_nodes, ?cq_pods, ?cq_jobs, ?cq_log, ?cq_stuck.
 
   Lemma link_evict stk s pid :
-    wf_cmd tok stk false s (Evict pid) = true ->
+    wf_cmd tok stk false s (Evict pid) = true -> releasing_in s pid = false ->
     exists s' p nid, evict s pid = (s', true) /\ get_pod s pid = Some p
       /\ s_log s' = s_log s ++ [OEvict pid (p_status p) nid (p_groups p) (p_virt p)]
       /\ s_stuck s' = s_stuck s
       /\ forall a, srel s' a -> srel s (unevict a pid (p_status p) nid (p_groups p) (p_virt p)).
   Proof.
-    intros W.
-    destruct (wf_evict_facts _ _ _ W) as (p & j & nid & n & Gp & Eid & Tk & Act & (Ej & Ipos & Ips & Inn) & _ & _ & Epn & En & Srt & Cp & Fr).
+    intros W Nr.
+    destruct (wf_evict_facts _ _ _ W Nr) as (p & j & nid & n & Gp & Eid & Tk & Act & (Ej & Ipos & Ips & Inn) & _ & Epn & En & Srt & Cp & Fr).
     destruct (job_update_some j (p_pset p) (p_jreq p) (p_status p) (p_status p) Releasing Ips) as [j1 Ej1].
     set (jid := t_job (p_task p)) in *.
     assert (Gp' : alookup (p_id p) (s_pods s) = Some p) by (rewrite Eid; exact Gp).
@@ -1463,8 +1502,8 @@ Section Sess.
     pose (s1 := put_pod (set_jobs s (aput jid j1 (s_jobs s))) p1).
     pose (s' := put_pod (push (ev_dealloc (put_node s1 nid n1) p1) (OEvict pid (p_status p) nid (p_groups p) (p_virt p))) (set_vt p1 true)).
     assert (Ev : evict s pid = (s', true)).
-    { unfold evict. rewrite Gp. fold jid. rewrite Ej, Epn, En.
-      rewrite (update_status_eq s p Releasing j p j1 Ej Gp' Ej1). cbn [negb].
+    { rewrite (evict_unrepaired _ _ Nr). unfold evict_before_repair. rewrite Gp. fold jid. rewrite Ej, Epn, En.
+      unfold evict_on. rewrite (update_status_eq s p Releasing j p j1 Ej Gp' Ej1). cbn [negb].
       assert (Eat : at_node (set_st p Releasing) nid = p1).
       { unfold at_node. change (t_status (p_task (set_st p Releasing))) with Releasing. cbn [active_used].
         unfold set_st. rewrite at_node_raw_with, Fr. reflexivity. }
@@ -1599,8 +1638,10 @@ Section Sess.
     assert (Tk1 : t0 = p_task (set_st p1 Releasing)) by reflexivity.
     rewrite Tk1 in Eua.
     eexists. split.
-    { unfold evict, get_pod. rewrite Ga. change (t_job (p_task p1)) with jid. rewrite Gja.
-      change (p_node p1) with (p_node p). rewrite Epn, Gna, Ua. cbn [negb]. rewrite Eat, Eua. reflexivity. }
+    { assert (Nra : releasing_in a pid = false).
+      { rewrite (releasing_in_eq _ _ _ Ga). change (p_status p1) with prev. destruct prev; cbn in Act; try discriminate; reflexivity. }
+      rewrite (evict_unrepaired _ _ Nra). unfold evict_before_repair, get_pod. rewrite Ga. change (t_job (p_task p1)) with jid. rewrite Gja.
+      change (p_node p1) with (p_node p). rewrite Epn, Gna. unfold evict_on. rewrite Ua. cbn [negb]. rewrite Eat, Eua. reflexivity. }
     destruct (job_update_static _ _ _ _ _ _ _ Eja2) as (Jq2 & Jn2 & _).
     destruct Ja as (Jqa & Jna & _).
     assert (Ejf : alookup jid (aput jid ja2 (s_jobs a)) = Some ja2) by (apply (alookup_aput_same' _ _ _ _ Gja)).
@@ -2014,12 +2055,12 @@ Section Sess.
   Proof. rewrite nth_error_app2 by lia. rewrite Nat.sub_diag. reflexivity. Qed.
 
   Lemma link_of_evict stk s pid :
-    wf_cmd tok stk false s (Evict pid) = true ->
+    wf_cmd tok stk false s (Evict pid) = true -> releasing_in s pid = false ->
     exists s', evict s pid = (s', true) /\ s_stuck s' = s_stuck s
       /\ (exists a b c d, s_log s' = s_log s ++ [OEvict pid a b c d])
       /\ Link (s_log s') (length (s_log s)) s s'.
   Proof.
-    intros W. destruct (link_evict stk s pid W) as (s' & p & nid & Ev & Gp & Ls & Ks & Back).
+    intros W Nr. destruct (link_evict stk s pid W Nr) as (s' & p & nid & Ev & Gp & Ls & Ks & Back).
     exists s'. split; [exact Ev|]. split; [exact Ks|]. split; [do 4 eexists; exact Ls|].
     intros L0 a OK Pf Lt (Sr & T & La & Tk).
     assert (En : nth_error (s_log a) (length (s_log s)) = Some (OEvict pid (p_status p) nid (p_groups p) (p_virt p))).
@@ -2129,6 +2170,116 @@ Section Sess.
     - apply amap_rel_refl. exact jrel_refl.
   Qed.
 
+  (** ** Frames: a command on pod [pid] leaves the other pods of the session alone *)
+  Definition PF (pid : positive) (a b : sess) : Prop :=
+    forall k, k <> pid -> alookup k (s_pods a) = alookup k (s_pods b).
+
+  Lemma pf_refl pid a : PF pid a a.
+  Proof. intros k _. reflexivity. Qed.
+  Lemma pf_trans pid a b c : PF pid a b -> PF pid b c -> PF pid a c.
+  Proof. intros H1 H2 k Hk. rewrite (H1 k Hk). apply H2. exact Hk. Qed.
+  Lemma pf_pods pid a b : s_pods a = s_pods b -> PF pid a b.
+  Proof. intros E k _. rewrite E. reflexivity. Qed.
+  Lemma pf_put_pod pid a x : p_id x = pid -> PF pid (put_pod a x) a.
+  Proof. intros E k Hk. unfold put_pod. cbn [s_pods set_podsm]. rewrite E. apply alookup_aput_other. exact Hk. Qed.
+  Lemma pf_releasing pid a b k : PF pid a b -> k <> pid -> releasing_in a k = releasing_in b k.
+  Proof. intros H Hk. unfold releasing_in, get_pod. rewrite (H k Hk). reflexivity. Qed.
+
+  Lemma pid_at_node p n : p_id (at_node p n) = p_id p.
+  Proof. unfold at_node. destruct (active_used _); reflexivity. Qed.
+
+  Lemma pf_update_status pid a obj new : p_id obj = pid -> PF pid (fst (update_status a obj new)) a.
+  Proof.
+    intros E. unfold update_status. destruct (alookup (t_job (p_task obj)) (s_jobs a)) as [j|]; [|apply pf_refl].
+    destruct (alookup (p_id obj) (s_pods a)) as [cur|]; [|apply pf_refl].
+    destruct (job_update _ _ _ _ _ _) as [j'|]; [|apply pf_refl].
+    cbn [fst]. eapply pf_trans; [apply pf_put_pod; exact E|apply pf_pods; reflexivity].
+  Qed.
+
+  Lemma pf_evict pid a : (forall p, get_pod a pid = Some p -> p_id p = pid) -> PF pid (fst (evict a pid)) a.
+  Proof.
+    intros K. unfold evict. destruct (get_pod a pid) as [p|] eqn:G; [|apply pf_refl].
+    pose proof (K p eq_refl) as E.
+    destruct (alookup (t_job (p_task p)) (s_jobs a)); [|apply pf_refl].
+    destruct (p_node p) as [nid|]; [|apply pf_refl].
+    destruct (alookup nid (s_nodes a)) as [n|]; [|apply pf_refl].
+    destruct (status_eqb (p_status p) Releasing); [apply pf_refl|].
+    unfold evict_on. pose proof (pf_update_status pid a p Releasing E) as U.
+    destruct (update_status a p Releasing) as [s1 ok]. cbn [fst] in U. destruct ok; cbn [negb]; [|apply pf_refl].
+    destruct (update_task n _) as [n'|]; cbn [fst]; [|exact U].
+    eapply pf_trans; [apply pf_put_pod; change (p_id (at_node (set_st p Releasing) nid) = pid); rewrite pid_at_node; exact E|].
+    eapply pf_trans; [|exact U]. apply pf_pods. sess_cbn. cq. reflexivity.
+  Qed.
+
+  Lemma pf_unevict pid a prev nid pg pv :
+    (forall p, get_pod a pid = Some p -> p_id p = pid) -> PF pid (unevict a pid prev nid pg pv) a.
+  Proof.
+    intros K. unfold unevict. destruct (get_pod a pid) as [p|] eqn:G; [|apply pf_refl].
+    pose proof (K p eq_refl) as E.
+    pose proof (pf_update_status pid a p prev E) as U.
+    destruct (update_status a p prev) as [s1 ok]. cbn [fst] in U.
+    set (p0 := pod_with (if ok then set_st p prev else p) (if ok then prev else p_status p) pg (p_node p) pv).
+    assert (E0 : p_id p0 = pid) by (unfold p0; destruct ok; exact E).
+    destruct (alookup nid (s_nodes s1)) as [n|]; cbv zeta.
+    - assert (E1 : p_id (at_node p0 nid) = pid) by (rewrite pid_at_node; exact E0).
+      eapply pf_trans; [|exact U]. eapply pf_trans; [|apply pf_put_pod; exact E1].
+      apply pf_pods. cq. destruct (if amem pid (n_pods n) then _ else _); reflexivity.
+    - eapply pf_trans; [|exact U]. eapply pf_trans; [|apply pf_put_pod; exact E0]. apply pf_pods. cq. reflexivity.
+  Qed.
+
+  Lemma pf_pipeline_body pid s0 p nid n on move : p_id p = pid -> PF pid (fst (pipeline_body s0 p nid n on move)) s0.
+  Proof.
+    intros E. unfold pipeline_body. pose proof (pf_update_status pid s0 p Pipelined E) as U.
+    destruct (update_status s0 p Pipelined) as [s1 ok]. cbn [fst] in U.
+    set (p1 := at_node (set_nd (if ok then set_st p Pipelined else p) (Some nid)) nid).
+    assert (E1 : p_id p1 = pid) by (unfold p1; rewrite pid_at_node; destruct ok; exact E).
+    assert (U2 : PF pid (put_pod s1 p1) s0) by (eapply pf_trans; [apply pf_put_pod; exact E1|exact U]).
+    match goal with |- context [match ?r with Err => _ | Ok n' => _ end] => destruct r as [n'|] end; cbn [fst]; [|exact U2].
+    eapply pf_trans; [apply pf_put_pod; exact E1|]. eapply pf_trans; [|exact U2]. apply pf_pods. sess_cbn. cq. reflexivity.
+  Qed.
+
+  Lemma pf_allocate pid a nid gs :
+    (forall p, get_pod a pid = Some p -> p_id p = pid) -> PF pid (fst (allocate a pid nid gs)) a.
+  Proof.
+    intros K. unfold allocate. destruct (get_pod a pid) as [p0|] eqn:G; [|apply pf_refl].
+    pose proof (K p0 eq_refl) as E0.
+    set (p := match gs with Some g => set_gs p0 g | None => p0 end).
+    assert (E : p_id p = pid) by (unfold p; destruct gs; exact E0).
+    assert (U0 : PF pid (put_pod a p) a) by (apply pf_put_pod; exact E).
+    pose proof (pf_update_status pid (put_pod a p) p Allocated E) as U.
+    destruct (update_status (put_pod a p) p Allocated) as [s1 ok]. cbn [fst] in U.
+    destruct ok; cbn [negb fst]; [|exact U0].
+    set (p1 := at_node (set_nd (set_st p Allocated) (Some nid)) nid).
+    assert (E1 : p_id p1 = pid) by (unfold p1; rewrite pid_at_node; exact E).
+    assert (U2 : PF pid (put_pod s1 p1) a).
+    { eapply pf_trans; [apply pf_put_pod; exact E1|]. eapply pf_trans; [exact U|exact U0]. }
+    match goal with |- context [alookup nid ?m] => destruct (alookup nid m) as [n|] end; cbn [fst]; [|exact U2].
+    destruct (add_task n _) as [n'|]; cbn [fst]; [|exact U2].
+    eapply pf_trans; [apply pf_put_pod; exact E1|]. eapply pf_trans; [|exact U2]. apply pf_pods. sess_cbn. cq. reflexivity.
+  Qed.
+
+  (** an Evict that returned nil leaves the pod Releasing *)
+  Lemma evict_makes_releasing a pid p a' :
+    get_pod a pid = Some p -> p_id p = pid -> evict a pid = (a', true) -> releasing_in a' pid = true.
+  Proof.
+    intros G E. unfold evict. rewrite G.
+    destruct (alookup (t_job (p_task p)) (s_jobs a)) as [j0|] eqn:Ej0; [|discriminate].
+    destruct (p_node p) as [nid|]; [|discriminate].
+    destruct (alookup nid (s_nodes a)) as [n|]; [|discriminate].
+    destruct (status_eqb (p_status p) Releasing) eqn:St.
+    { intros H. injection H as <-. rewrite (releasing_in_eq _ _ _ G). exact St. }
+    unfold evict_on. destruct (update_status a p Releasing) as [s1 ok] eqn:Eu. destruct ok; cbn [negb]; [|discriminate].
+    destruct (update_task n _) as [n'|]; [|discriminate].
+    intros H. injection H as <-. unfold releasing_in, get_pod. sess_cbn.
+    change (p_id (set_vt (at_node (set_st p Releasing) nid) true)) with (p_id (at_node (set_st p Releasing) nid)).
+    rewrite pid_at_node. change (p_id (set_st p Releasing)) with (p_id p). rewrite E.
+    unfold aput. rewrite alookup_aupd_same. cq.
+    (* the key is there: update_status put the pod under it *)
+    unfold update_status in Eu. rewrite Ej0, E in Eu. unfold get_pod in G. rewrite G in Eu.
+    destruct (job_update _ _ _ _ _ _) as [j'|]; [|discriminate]. injection Eu as <-. sess_cbn.
+    change (p_id (set_st p Releasing)) with (p_id p). rewrite E. unfold aput. rewrite alookup_aupd_same, G. reflexivity.
+  Qed.
+
   Definition log_cmd (c : cmd) : bool :=
     match c with Evict _ | Pipeline _ _ _ _ | Allocate _ _ _ | Unevict _ => true | _ => false end.
 
@@ -2142,17 +2293,61 @@ Section Sess.
     | _, _ => False
     end.
 
-  Lemma cmd_link fails stk s c :
-    log_cmd c = true -> wf_cmd tok stk false s c = true -> LogOK (s_log s) -> s_stuck s = false ->
-    exists s' e, step_full fails s c = (s', [], true) /\ s_stuck s' = false /\ s_log s' = s_log s ++ [e]
-      /\ entry_for c e /\ LogOK (s_log s') /\ Link (s_log s') (length (s_log s)) s s'.
+  (** what a recorded command does to the pods: only its own pod changes; an Evict leaves it
+      Releasing; an undo entry (Unevict, Pipeline onto the pod's own node and devices) targets a
+      valid evict entry of the command's pod *)
+  Definition frame_for (c : cmd) (s s' : sess) (e : op) : Prop :=
+    PF (cpod c) s' s
+    /\ match c with Evict pid => releasing_in s' pid = true | _ => True end
+    /\ match e with
+       | OUndo i0 => exists a b c0 d, nth_error (s_log s) i0 = Some (OEvict (cpod c) a b c0 d)
+                                     /\ op_valid (s_log s) i0 = Some true
+       | _ => True
+       end.
+
+  Lemma frame_body s s0 s' p pid nid n on move c e :
+    p_id p = pid -> PF pid s0 s -> pipeline_body s0 p nid n on move = (s', true) ->
+    match c with Evict _ => False | _ => cpod c = pid end -> match e with OUndo _ => False | _ => True end ->
+    frame_for c s s' e.
   Proof.
-    intros Lc W OK Ks. unfold step_full. rewrite Ks.
+    intros E U0 Ef Hc He. pose proof (pf_pipeline_body pid s0 p nid n on move E) as U. rewrite Ef in U. cbn [fst] in U.
+    split; [|split].
+    - replace (cpod c) with pid by (destruct c; try contradiction; symmetry; exact Hc). eapply pf_trans; eassumption.
+    - destruct c; try exact I. contradiction.
+    - destruct e; try exact I. contradiction.
+  Qed.
+
+  Lemma frame_unevict s s1 pid p1 prev nid pg pv i c :
+    PF pid s1 s -> get_pod s1 pid = Some p1 -> p_id p1 = pid -> s_log s1 = s_log s ->
+    nth_error (s_log s) i = Some (OEvict pid prev nid pg pv) -> op_valid (s_log s) i = Some true ->
+    match c with Evict _ => False | _ => cpod c = pid end ->
+    frame_for c s (push (unevict s1 pid prev nid pg pv) (OUndo i)) (OUndo i).
+  Proof.
+    intros U0 G E Ls Ent V Hc.
+    assert (Ec : cpod c = pid) by (destruct c; try contradiction; exact Hc).
+    split; [|split].
+    - rewrite Ec. eapply pf_trans; [|exact U0]. eapply pf_trans; [apply pf_pods; reflexivity|].
+      apply pf_unevict. intros q Hq. rewrite G in Hq. injection Hq as <-. exact E.
+    - destruct c; try exact I. contradiction.
+    - rewrite Ec. do 4 eexists. split; [exact Ent|exact V].
+  Qed.
+
+  Lemma cmd_link fails stk s c :
+    log_cmd c = true -> noop_cmd s c = false -> wf_cmd tok stk false s c = true -> LogOK (s_log s) -> s_stuck s = false ->
+    exists s' e, step_full fails s c = (s', [], true) /\ s_stuck s' = false /\ s_log s' = s_log s ++ [e]
+      /\ entry_for c e /\ LogOK (s_log s') /\ Link (s_log s') (length (s_log s)) s s' /\ frame_for c s s' e.
+  Proof.
+    intros Lc Nr W OK Ks. unfold step_full. rewrite Ks.
     destruct c as [pid|pid nid gs upd|pid nid gs|pid| | | | |]; try discriminate.
     - (* Evict *)
-      destruct (link_of_evict stk s pid W) as (s' & Ev & Kk & (ea & eb & ec & ed & Le) & Lk).
+      cbn [noop_cmd] in Nr.
+      destruct (link_of_evict stk s pid W Nr) as (s' & Ev & Kk & (ea & eb & ec & ed & Le) & Lk).
+      destruct (wf_evict_facts _ _ _ W Nr) as (p & _ & _ & _ & Gp & Eid & _).
       exists s'. eexists. rewrite Ev. split; [reflexivity|]. split; [congruence|]. split; [exact Le|]. split; [reflexivity|].
-      split; [rewrite Le; apply LogOK_app_prim; [exact OK|exact I]|exact Lk].
+      split; [rewrite Le; apply LogOK_app_prim; [exact OK|exact I]|]. split; [exact Lk|].
+      split; [|split; [|exact I]].
+      + pose proof (pf_evict pid s) as U. rewrite Ev in U. apply U. intros q Hq. rewrite Gp in Hq. injection Hq as <-. exact Eid.
+      + exact (evict_makes_releasing _ _ _ _ Gp Eid Ev).
     - (* Pipeline *)
       unfold wf_cmd in W. cbn [negb andb] in W.
       destruct (get_pod s pid) as [p0|] eqn:Gp; [|discriminate].
@@ -2176,6 +2371,7 @@ Section Sess.
         destruct (link_pipe_add s pid p0 gs nid n j Gp Wid Wtk Ij (or_introl Est) Hgs En Wam) as (s' & Ef & Ls & Kk & Back).
         exists s'. eexists. rewrite Ef. split; [reflexivity|]. split; [congruence|]. split; [exact Ls|]. split; [reflexivity|].
         split; [rewrite Ls; apply LogOK_app_prim; [exact OK|exact I]|].
+        split; [|eapply (frame_body s _ s' _ pid); [|apply pf_put_pod| exact Ef|reflexivity|exact I]; destruct gs; exact Wid].
         intros L0 a OK0 Pf Lt (Sr & T & La & Tkk).
         assert (Een : nth_error (s_log a) (length (s_log s)) = Some (OPipe pid (p_status p0) (p_node p0) (p_groups match gs with Some g => set_gs p0 g | None => p0 end) (p_virt p0) nid false)).
         { rewrite La. eapply act_entry; [exact Pf|]. rewrite Ls. apply nth_snoc. }
@@ -2210,6 +2406,7 @@ Section Sess.
              destruct (link_pipe_move s pid p0 g nid n j c Gp Wid Wtk Ij St Vt Hsh En Wsd Ec Hc') as (s' & Efw & Ls & Kk & Back).
              exists s'. eexists. unfold p. rewrite Efw. split; [reflexivity|]. split; [congruence|]. split; [exact Ls|]. split; [reflexivity|].
              split; [rewrite Ls; apply LogOK_app_prim; [exact OK|exact I]|].
+             split; [|eapply (frame_body s _ s' _ pid); [|apply pf_put_pod|exact Efw|reflexivity|exact I]; exact Wid].
              intros L0 a OK0 Pf Lt (Sr & T & La & Tkk).
              assert (Een : nth_error (s_log a) (length (s_log s)) = Some (OPipe pid (p_status p0) (p_node p0) (t_groups c) (p_virt p0) nid true)).
              { rewrite La. eapply act_entry; [exact Pf|]. rewrite Ls. apply nth_snoc. }
@@ -2258,12 +2455,15 @@ Section Sess.
              destruct (link_of_unevict s1 p1 i prev nid pg pv n j A1 G1 A2 A3 A4 A5 Act A6 A7 A8 Wsd A9 A10 A11) as (Kk & Ls & OKs & Lk).
              rewrite Id1 in *. exists (push (unevict s1 pid prev nid pg pv) (OUndo i)). eexists.
              split; [reflexivity|]. split; [rewrite Kk; exact Ks|]. split; [exact Ls|]. split; [exact I|]. split; [exact OKs|].
-             eapply Link_pre; [exact Sr1|exact Lk].
+             split; [eapply Link_pre; [exact Sr1|exact Lk]|].
+             apply (frame_unevict s s1 pid p1); [|exact G1|exact Id1|exact Ls1|exact Ent|exact V|reflexivity].
+             unfold s1. eapply pf_trans; apply pf_put_pod; [exact Id1|unfold p; destruct gs; exact Wid].
         * (* another node *)
           assert (Wam : amem pid (n_pods n) = false) by (unfold amem; rewrite Ec; reflexivity).
           destruct (link_pipe_add s pid p0 gs nid n j Gp Wid Wtk Ij (or_intror (conj St Vt)) Hgs En Wam) as (s' & Efw & Ls & Kk & Back).
           exists s'. eexists. rewrite Efw. split; [reflexivity|]. split; [congruence|]. split; [exact Ls|]. split; [reflexivity|].
           split; [rewrite Ls; apply LogOK_app_prim; [exact OK|exact I]|].
+          split; [|eapply (frame_body s _ s' _ pid); [|apply pf_put_pod|exact Efw|reflexivity|exact I]; destruct gs; exact Wid].
           intros L0 a OK0 Pf Lt (Sr & T & La & Tkk).
           assert (Een : nth_error (s_log a) (length (s_log s)) = Some (OPipe pid (p_status p0) (p_node p0) (p_groups match gs with Some g => set_gs p0 g | None => p0 end) (p_virt p0) nid false)).
           { rewrite La. eapply act_entry; [exact Pf|]. rewrite Ls. apply nth_snoc. }
@@ -2295,6 +2495,9 @@ Section Sess.
       exists s'. eexists. rewrite Efw. split; [reflexivity|]. split; [congruence|]. split; [exact Ls|].
       split; [cbn [entry_for]; destruct gs; exact Wid|].
       split; [rewrite Ls; apply LogOK_app_prim; [exact OK|exact I]|].
+      split.
+      2:{ split; [|split; exact I]. pose proof (pf_allocate pid s nid gs) as U. rewrite Efw in U. apply U.
+          intros q Hq. rewrite Gp in Hq. injection Hq as <-. exact Wid. }
       intros L0 a OK0 Pf Lt (Sr & T & La & Tkk).
       set (cl := at_node_raw (set_nd (set_st match gs with Some g => set_gs p0 g | None => p0 end Allocated) (Some nid)) nid) in *.
       assert (Een : nth_error (s_log a) (length (s_log s)) = Some (OAlloc cl nid (p_virt p0))).
@@ -2321,7 +2524,8 @@ Section Sess.
       destruct (link_of_unevict s p i prev nid0 pg pv n0 j OK Gp Wtk St Vt Ij Act Epn Gor En0 Srt0 Cp0 Ent V) as (Kk & Ls & OKs & Lk).
       rewrite Wid in *.
       exists (push (unevict s pid prev nid0 pg pv) (OUndo i)). eexists.
-      split; [reflexivity|]. split; [rewrite Kk; exact Ks|]. split; [exact Ls|]. split; [exact I|]. split; [exact OKs|exact Lk].
+      split; [reflexivity|]. split; [rewrite Kk; exact Ks|]. split; [exact Ls|]. split; [exact I|]. split; [exact OKs|]. split; [exact Lk|].
+      apply (frame_unevict s s pid p); [apply pf_refl|exact Gp|exact Wid|reflexivity|exact Ent|exact V|reflexivity].
   Qed.
 
   (** * The recorded states: one per log length *)
@@ -2432,8 +2636,12 @@ Section Sess.
       /\ nth_error hist' 0 = nth_error hist 0.
   Proof.
     intros Oc W H Sn. pose proof H as (Hl & OK & Ks & Fk & Lk & Tp). destruct Sn as (Sm & Se).
+    destruct (noop_cmd s c) eqn:Nc.
+    { (* Evict of a Releasing pod: nothing happens *)
+      rewrite (noop_step fails s c Nc). cbn [fst]. exists hist. split; [exact H|]. split; [|reflexivity].
+      destruct c; try discriminate. split; [exact Sm|exact Se]. }
     destruct (log_cmd c) eqn:Lc.
-    - destruct (cmd_link fails stk s c Lc W OK Ks) as (s' & e & Es & Ks' & Ls & _ & OK' & Lnew).
+    - destruct (cmd_link fails stk s c Lc Nc W OK Ks) as (s' & e & Es & Ks' & Ls & _ & OK' & Lnew & _).
       unfold step. rewrite Es. cbn [fst].
       exists (hist ++ [s']). split; [eapply Hist_push; eassumption|]. split.
       + assert (E1 : stk_after stk s c = stk) by (destruct c; try discriminate; reflexivity).
@@ -2830,64 +3038,233 @@ Proof.
   apply andb_true_iff in W. destruct W as [_ W]. apply negb_true_iff in W. exact W.
 Qed.
 
+(** * No valid eviction of a pod that is not Releasing
+
+    [EI L s]: every evict entry of [L] that is still valid, of a pod that [L] has not placed since,
+    is of a pod that is Releasing in [s].  It holds along well-formed open statements WITHOUT any
+    clause on evictions in [wf_cmd]: Statement.Evict leaves a Releasing pod alone (83a0ca3, bce7109), so
+    a second valid evict entry of a pod cannot come about.  [once_ok] (at most one valid evict
+    entry per pod) and [EI] are proved together: an effective Evict finds the pod not Releasing,
+    hence without valid evict entry ([ei_no_valid_evict]); an un-eviction withdraws the pod's
+    only valid evict entry ([once_ok]). *)
+Definition EI (L : list op) (s : sess) : Prop :=
+  forall i p a b c d, nth_error L i = Some (OEvict p a b c d) -> undone_in L i = false ->
+    has_placing L p = false -> releasing_in s p = true.
+(** the states recorded at the outstanding checkpoints, each with the log prefix it was taken at *)
+Definition SEI (L : list op) (sn : list (nat * sess)) : Prop :=
+  forall cp x, In (cp, x) sn -> EI (firstn cp L) x.
+
+Lemma undone_in_snoc L e k :
+  undone_in (L ++ [e]) k = undone_in L k || match e with OUndo j => Nat.eqb j k | _ => false end.
+Proof. unfold undone_in. rewrite existsb_app. cbn [existsb]. rewrite orb_false_r. reflexivity. Qed.
+
+Lemma has_placing_snoc L e p :
+  has_placing (L ++ [e]) p = has_placing L p || match e with
+                                                | OPipe q _ _ _ _ _ _ => Pos.eqb q p
+                                                | OAlloc c _ _ => Pos.eqb (p_id c) p
+                                                | _ => false
+                                                end.
+Proof. unfold has_placing. rewrite existsb_app. cbn [existsb]. rewrite orb_false_r. reflexivity. Qed.
+
+Lemma EI_nil s : EI [] s.
+Proof. intros i p a b c d H. destruct i; discriminate H. Qed.
+
+Lemma fve_total all pid : LogOK all -> forall L pos, (pos + length L <= length all)%nat ->
+  exists r, first_valid_evict L all pid pos = Some r.
+Proof.
+  intros OK. induction L as [|o r IH]; intros pos Len; cbn [first_valid_evict]; [eexists; reflexivity|].
+  cbn [length] in Len. rewrite (valid_persistent all pos OK) by lia.
+  destruct (negb (undone_in all pos)); [|apply IH; lia].
+  destruct o as [p ? ? ? ?| | |]; try (apply IH; lia).
+  destruct (Pos.eqb p pid); [eexists; reflexivity|apply IH; lia].
+Qed.
+
+(** a pod that is not Releasing and not placed by the statement has no valid evict entry: what the
+    dropped clause of [wf_cmd] used to demand *)
+Lemma ei_no_valid_evict L s pid :
+  LogOK L -> EI L s -> releasing_in s pid = false -> has_placing L pid = false -> no_valid_evict L pid = true.
+Proof.
+  intros OK Ei Nr Hp. unfold no_valid_evict.
+  destruct (fve_total L pid OK L 0%nat ltac:(lia)) as ([i|] & E); rewrite E; [|reflexivity].
+  exfalso. destruct (fve_top _ _ _ E) as (V & a & b & c & d & En).
+  assert (U : undone_in L i = false).
+  { rewrite (valid_persistent L i OK (la_nth_lt _ _ _ En)) in V. injection V as V. apply negb_true_iff in V. exact V. }
+  rewrite (Ei i pid a b c d En U Hp) in Nr. discriminate.
+Qed.
+
+Lemma once_unique L : once_ok L ->
+  forall i j p a b c d a' b' c' d', nth_error L i = Some (OEvict p a b c d) -> nth_error L j = Some (OEvict p a' b' c' d') ->
+    undone_in L i = false -> undone_in L j = false -> i = j.
+Proof.
+  intros [Ev _] i j p a b c d a' b' c' d' Hi Hj Ui Uj.
+  destruct (Nat.lt_trichotomy i j) as [Lt|[E|Gt]]; [exfalso|exact E|exfalso].
+  - destruct (Ev _ _ _ _ _ _ _ _ _ _ _ Lt Hi Hj) as (m & _ & Hm). rewrite (la_undone_intro _ _ _ Hm) in Ui. discriminate.
+  - destruct (Ev _ _ _ _ _ _ _ _ _ _ _ Gt Hj Hi) as (m & _ & Hm). rewrite (la_undone_intro _ _ _ Hm) in Uj. discriminate.
+Qed.
+
+Lemma srel_releasing R x y pid : srel R x y -> releasing_in y pid = releasing_in x pid.
+Proof.
+  intros (_ & P & _). unfold releasing_in, get_pod. pose proof (amap_rel_lookup prel _ _ pid P) as H.
+  destruct (alookup pid (s_pods x)) as [a|]; destruct (alookup pid (s_pods y)) as [b|]; try contradiction; [|reflexivity].
+  destruct (prel_fields _ _ H) as (E & _). rewrite E. reflexivity.
+Qed.
+
+Lemma EI_srel R L x y : srel R x y -> EI L x -> EI L y.
+Proof. intros Sr Ei i p a b c d Hi Hu Hp. rewrite (srel_releasing R x y p Sr). exact (Ei i p a b c d Hi Hu Hp). Qed.
+
+(** a recorded command keeps [EI] *)
+Lemma ei_snoc s s' c e :
+  LogOK (s_log s) -> once_ok (s_log s) -> EI (s_log s) s -> entry_for c e -> frame_for c s s' e ->
+  EI (s_log s ++ [e]) s'.
+Proof.
+  intros OK On Ei Ef (Pf & Fr & Fu) i p a b c0 d Hi Hu Hp.
+  rewrite undone_in_snoc in Hu. apply orb_false_iff in Hu. destruct Hu as [Hu Hue].
+  rewrite has_placing_snoc in Hp. apply orb_false_iff in Hp. destruct Hp as [Hp Hpe].
+  assert (Other : p <> cpod c -> (i < length (s_log s))%nat -> releasing_in s' p = true).
+  { intros Ne Lt. rewrite (pf_releasing _ _ _ _ Pf Ne). apply (Ei i p a b c0 d); [|exact Hu|exact Hp].
+    destruct (la_nth_snoc _ _ _ _ Hi) as [[_ H]|[H _]]; [exact H|lia]. }
+  destruct (Pos.eq_dec p (cpod c)) as [Ep|Ne].
+  2:{ apply (Other Ne). destruct (la_nth_snoc _ _ _ _ Hi) as [[Lt _]|[_ He]]; [exact Lt|].
+      exfalso. subst e. destruct c; cbn [entry_for] in Ef; try contradiction. }
+  subst p.
+  destruct c as [pid|pid nid gs upd|pid nid gs|pid| | | | |]; destruct e as [q ? ? ? ?|q ? ? ? ? ? ?|cl ? ?|i0];
+    cbn [entry_for cpod] in *; try contradiction.
+  - (* Evict *) exact Fr.
+  - (* Pipeline, nomination: the pod is placed *) subst q. rewrite Pos.eqb_refl in Hpe. discriminate.
+  - (* Pipeline onto the pod's own node: its only valid eviction is withdrawn *)
+    exfalso. destruct Fu as (a' & b' & c' & d' & En & V).
+    assert (U0 : undone_in (s_log s) i0 = false).
+    { rewrite (valid_persistent _ i0 OK (la_nth_lt _ _ _ En)) in V. injection V as V. apply negb_true_iff in V. exact V. }
+    destruct (la_nth_snoc _ _ _ _ Hi) as [[Lt Hi']|[_ He]]; [|discriminate He].
+    pose proof (once_unique _ On _ _ _ _ _ _ _ _ _ _ _ Hi' En Hu U0) as E. subst i0. rewrite Nat.eqb_refl in Hue. discriminate.
+  - (* Allocate *) rewrite Ef, Pos.eqb_refl in Hpe. discriminate.
+  - (* Unevict *)
+    exfalso. destruct Fu as (a' & b' & c' & d' & En & V).
+    assert (U0 : undone_in (s_log s) i0 = false).
+    { rewrite (valid_persistent _ i0 OK (la_nth_lt _ _ _ En)) in V. injection V as V. apply negb_true_iff in V. exact V. }
+    destruct (la_nth_snoc _ _ _ _ Hi) as [[Lt Hi']|[_ He]]; [|discriminate He].
+    pose proof (once_unique _ On _ _ _ _ _ _ _ _ _ _ _ Hi' En Hu U0) as E. subst i0. rewrite Nat.eqb_refl in Hue. discriminate.
+Qed.
+
+Lemma firstn_snoc_le {A} (L : list A) e cp : (cp <= length L)%nat -> firstn cp (L ++ [e]) = firstn cp L.
+Proof. intros Le. rewrite firstn_app. replace (cp - length L)%nat with 0%nat by lia. cbn [firstn]. apply app_nil_r. Qed.
+
 Lemma once_step fails s stk sn hist c :
   open_cmd c = true -> wf_cmd any_task stk false s c = true -> Hist neq s hist -> SnOK neq s hist stk sn ->
-  once_ok (s_log s) -> once_ok (s_log (fst (step fails s c))).
+  once_ok (s_log s) -> EI (s_log s) s -> SEI (s_log s) sn ->
+  once_ok (s_log (fst (step fails s c))) /\ EI (s_log (fst (step fails s c))) (fst (step fails s c))
+  /\ SEI (s_log (fst (step fails s c))) (snaps_after sn s c).
 Proof.
-  intros Oc W H Sn On. pose proof H as (Hl & OK & Ks & _). destruct Sn as (Sm & Se).
+  intros Oc W H Sn On Ei Se'. pose proof H as (Hl & OK & Ks & _). destruct Sn as (Sm & Se).
+  destruct (noop_cmd s c) eqn:Nc.
+  { rewrite (noop_step fails s c Nc). cbn [fst]. destruct c; try discriminate. split; [exact On|]. split; [exact Ei|exact Se']. }
   destruct (log_cmd c) eqn:Lc.
-  - destruct (cmd_link_n fails stk s c Lc W OK Ks) as (s' & e & Es & _ & Ls & Ef & _).
+  - destruct (cmd_link_n fails stk s c Lc Nc W OK Ks) as (s' & e & Es & _ & Ls & Ef & _ & _ & Fr).
     unfold step. rewrite Es. cbn [fst]. rewrite Ls.
-    destruct c as [pid|pid nid gs upd|pid nid gs|pid| | | | |]; try discriminate; destruct e; cbn [entry_for] in Ef; try contradiction.
-    + subst p. destruct (wf_evict_facts any_task stk s pid W) as (p & j & nid & n & _ & _ & _ & _ & _ & Nv & _).
-      apply once_app_evict; assumption.
-    + subst p. apply once_app_other; [exact On|]. apply has_placing_false. eapply wf_placing_pipe. exact W.
-    + apply once_app_other; [exact On|exact I].
-    + subst pid. apply once_app_other; [exact On|]. apply has_placing_false. eapply wf_placing_alloc. exact W.
-    + apply once_app_other; [exact On|exact I].
+    assert (E2 : snaps_after sn s c = sn) by (destruct c; try discriminate; reflexivity). rewrite E2.
+    split; [|split].
+    + destruct c as [pid|pid nid gs upd|pid nid gs|pid| | | | |]; try discriminate; destruct e; cbn [entry_for] in Ef; try contradiction.
+      * subst p. cbn [noop_cmd] in Nc.
+        destruct (wf_evict_facts any_task stk s pid W Nc) as (p & j & nid & n & _ & _ & _ & _ & _ & Hp & _).
+        apply once_app_evict; [exact OK|exact On|]. apply (ei_no_valid_evict _ s); assumption.
+      * subst p. apply once_app_other; [exact On|]. apply has_placing_false. eapply wf_placing_pipe. exact W.
+      * apply once_app_other; [exact On|exact I].
+      * subst pid. apply once_app_other; [exact On|]. apply has_placing_false. eapply wf_placing_alloc. exact W.
+      * apply once_app_other; [exact On|exact I].
+    + exact (ei_snoc s s' c e OK On Ei Ef Fr).
+    + intros cp x Hin. destruct (Se cp x Hin) as (Le & _). rewrite (firstn_snoc_le _ _ _ Le). exact (Se' cp x Hin).
   - destruct c as [| | | | |cp| | |]; try discriminate.
-    + unfold step, step_full. rewrite Ks. exact On.
-    + assert (Wc : existsb (Nat.eqb cp) stk = true) by exact W.
+    + (* Checkpoint *)
+      unfold step, step_full. rewrite Ks. cbn [fst snaps_after]. split; [exact On|]. split; [exact Ei|].
+      intros cp x [Hin|Hin]; [|exact (Se' cp x Hin)]. injection Hin as <- <-. rewrite firstn_all. exact Ei.
+    + (* Rollback *)
+      assert (Wc : existsb (Nat.eqb cp) stk = true) by exact W.
       apply existsb_exists in Wc. destruct Wc as (x & Hx & Ex). apply Nat.eqb_eq in Ex. subst x.
       rewrite <- Sm in Hx. apply in_map_iff in Hx. destruct Hx as ([cp' x0] & Ecp & Hin). cbn [fst] in Ecp. subst cp'.
-      destruct (Se cp x0 Hin) as (Le & _).
-      destruct (Hist_rollback_n s hist cp H Le) as (s' & h0 & Er & _ & _ & _ & Lg).
-      unfold step, step_full. rewrite Ks, Er. cbn [fst]. rewrite Lg. apply once_firstn. exact On.
-    + destruct (Hist_rollback_n s hist 0%nat H ltac:(lia)) as (s' & h0 & Er & _ & _ & _ & Lg).
-      unfold step, step_full. rewrite Ks. cbn [fst]. rewrite (discard_of_rollback _ _ Er), Lg. apply once_nil.
+      destruct (Se cp x0 Hin) as (Le & h & Eh2 & Sr2).
+      destruct (Hist_rollback_n s hist cp H Le) as (s' & h0 & Er & Eh & Sr & _ & Lg).
+      unfold step, step_full. rewrite Ks, Er. cbn [fst snaps_after]. rewrite Lg.
+      split; [apply once_firstn; exact On|]. split.
+      * rewrite Eh2 in Eh. injection Eh as <-.
+        apply (EI_srel neq _ h s' Sr). apply (EI_srel neq _ x0 h); [|exact (Se' cp x0 Hin)].
+        apply (srel_sym neq neq_sym). exact Sr2.
+      * intros c2 x Hf. apply filter_In in Hf. destruct Hf as [Hf Hle]. cbn [fst] in Hle. apply Nat.leb_le in Hle.
+        rewrite firstn_firstn. replace (Nat.min c2 cp) with c2 by lia. exact (Se' c2 x Hf).
+    + (* Discard *)
+      destruct (Hist_rollback_n s hist 0%nat H ltac:(lia)) as (s' & h0 & Er & _ & _ & _ & Lg).
+      unfold step, step_full. rewrite Ks. cbn [fst snaps_after]. rewrite (discard_of_rollback _ _ Er), Lg.
+      split; [apply once_nil|]. split; [apply EI_nil|intros c2 x []].
 Qed.
 
 Lemma run_once fails : forall prog s stk sn hist,
   forallb open_cmd prog = true -> Hist neq s hist -> SnOK neq s hist stk sn -> once_ok (s_log s) ->
+  EI (s_log s) s -> SEI (s_log s) sn ->
   forall c, wf_from any_task fails stk false s (prog ++ [c]) = true ->
   LogOK (s_log (Session.run fails s prog)) /\ once_ok (s_log (Session.run fails s prog))
-  /\ s_stuck (Session.run fails s prog) = false.
+  /\ s_stuck (Session.run fails s prog) = false /\ EI (s_log (Session.run fails s prog)) (Session.run fails s prog).
 Proof.
-  induction prog as [|c0 r IH]; intros s stk sn hist Op H Sn On c W.
-  - destruct H as (_ & OK & Ks & _). split; [exact OK|]. split; [exact On|exact Ks].
+  induction prog as [|c0 r IH]; intros s stk sn hist Op H Sn On Ei Se c W.
+  - destruct H as (_ & OK & Ks & _). split; [exact OK|]. split; [exact On|]. split; [exact Ks|exact Ei].
   - cbn [forallb] in Op. apply andb_true_iff in Op. destruct Op as [Oc Or].
     cbn [app wf_from] in W. apply andb_true_iff in W. destruct W as [Wc Wr].
     destruct (inv_step_n fails s stk sn hist c0 Oc Wc H Sn) as (hist1 & H1 & Sn1 & _).
-    pose proof (once_step fails s stk sn hist c0 Oc Wc H Sn On) as On1.
+    destruct (once_step fails s stk sn hist c0 Oc Wc H Sn On Ei Se) as (On1 & Ei1 & Se1).
     assert (Ec : conv_after false c0 = false) by (destruct c0; try discriminate; reflexivity).
-    rewrite Ec in Wr. rewrite run_cons. apply (IH _ _ _ _ Or H1 Sn1 On1 c Wr).
+    rewrite Ec in Wr. rewrite run_cons. apply (IH _ _ _ _ Or H1 Sn1 On1 Ei1 Se1 c Wr).
 Qed.
 
-(** Commit after a well-formed open statement: at most one call per kind and pod, for every failure oracle *)
+(** the invariants after a well-formed open statement started on an empty log *)
+Lemma run_once_init fails S prog c :
+  s_log S = [] -> s_stuck S = false -> forallb open_cmd prog = true ->
+  wf_from any_task fails [] false S (prog ++ [c]) = true ->
+  LogOK (s_log (Session.run fails S prog)) /\ once_ok (s_log (Session.run fails S prog))
+  /\ s_stuck (Session.run fails S prog) = false /\ EI (s_log (Session.run fails S prog)) (Session.run fails S prog).
+Proof.
+  intros L K Op W. apply (run_once fails prog S [] [] [S] Op) with (c := c).
+  - apply Hist_init; [exact neq_refl|exact L|exact K].
+  - split; [reflexivity|intros c0 x []].
+  - rewrite L. apply once_nil.
+  - rewrite L. apply EI_nil.
+  - intros cp x [].
+  - exact W.
+Qed.
+
+(** Commit after a well-formed open statement - in which Evict may be applied to any Releasing pod of
+    the session, already evicted ones included: at most one call per kind and pod, for every failure oracle *)
 Theorem commit_once_run fails S prog :
   s_log S = [] -> s_stuck S = false -> forallb open_cmd prog = true ->
   wf_from any_task fails [] false S (prog ++ [Commit]) = true ->
   NoDup (map ckey (snd (step fails (Session.run fails S prog) Commit))).
 Proof.
   intros L K Op W.
-  destruct (run_once fails prog S [] [] [S] Op) with (c := Commit) as (OK & On & Ks).
-  - apply Hist_init; [exact neq_refl|exact L|exact K].
-  - split; [reflexivity|intros c x []].
-  - rewrite L. apply once_nil.
-  - exact W.
-  - unfold step, step_full. rewrite Ks.
-    destruct (commit fails (Session.run fails S prog)) as [s1 cs] eqn:Ec. cbn [fst snd].
-    change cs with (snd (s1, cs)). rewrite <- Ec. apply commit_at_most_once; assumption.
+  destruct (run_once_init fails S prog Commit L K Op W) as (OK & On & Ks & _).
+  unfold step, step_full. rewrite Ks.
+  destruct (commit fails (Session.run fails S prog)) as [s1 cs] eqn:Ec. cbn [fst snd].
+  change cs with (snd (s1, cs)). rewrite <- Ec. apply commit_at_most_once; assumption.
+Qed.
+
+(** read on the calls: no pod is sent to Cache.Evict twice by one Commit *)
+Theorem commit_no_two_evictions fails S prog :
+  s_log S = [] -> s_stuck S = false -> forallb open_cmd prog = true ->
+  wf_from any_task fails [] false S (prog ++ [Commit]) = true ->
+  forall p pre mid post, snd (step fails (Session.run fails S prog) Commit) <> pre ++ AEvict p :: mid ++ AEvict p :: post.
+Proof.
+  intros L K Op W p pre mid post E. pose proof (commit_once_run fails S prog L K Op W) as N. rewrite E in N.
+  rewrite map_app in N. cbn [map] in N. apply NoDup_remove_2 in N. apply N.
+  apply in_or_app. right. rewrite map_app. apply in_or_app. right. left. reflexivity.
+Qed.
+
+(** in a well-formed open statement, a pod that is not Releasing and was not placed has no valid
+    evict entry (the clause [wf_cmd] used to contain) *)
+Theorem run_no_valid_evict fails S prog pid :
+  s_log S = [] -> s_stuck S = false -> forallb open_cmd prog = true ->
+  wf_from any_task fails [] false S (prog ++ [Evict pid]) = true ->
+  releasing_in (Session.run fails S prog) pid = false ->
+  has_placing (s_log (Session.run fails S prog)) pid = false ->
+  no_valid_evict (s_log (Session.run fails S prog)) pid = true.
+Proof.
+  intros L K Op W Nr Hp. destruct (run_once_init fails S prog (Evict pid) L K Op W) as (OK & _ & _ & Ei).
+  apply (ei_no_valid_evict _ (Session.run fails S prog)); assumption.
 Qed.
 
 
@@ -3097,13 +3474,29 @@ Theorem rollback_releasing_device_witness :
   /\ gpu (n_rel (node1 (Session.run nofail w9_init w9_prog))) = 0.
 Proof. repeat split; vm_compute; reflexivity. Qed.
 
-(** W3: the same running pod evicted twice (the second Evict meets a virtually
-    evicted pod; the actions can issue this: known finding C13-double-evict). *)
-Theorem commit_double_evict_witness :
+(** W3: the same running pod evicted twice.  Before the repair 83a0ca3 + bce7109 the second Evict met a
+    virtually evicted pod and recorded a second operation: Commit sent two evictions (the actions
+    issued this: former known finding C13-double-evict). *)
+Theorem commit_double_evict_before_repair :
   option_map p_status (get_pod w3_init 3) = Some Running
-  /\ snd (step nofail (Session.run nofail w3_init [Evict 3; Evict 3]) Commit) = [AEvict 3; AEvict 3]
-  /\ wf_from any_task nofail [] false w3_init [Evict 3] = true
-  /\ wf_from any_task nofail [] false w3_init [Evict 3; Evict 3] = false.
+  /\ length (s_log (run_before_repair nofail w3_init [Evict 3; Evict 3])) = 2%nat
+  /\ snd (step nofail (run_before_repair nofail w3_init [Evict 3; Evict 3]) Commit) = [AEvict 3; AEvict 3].
+Proof. repeat split; vm_compute; reflexivity. Qed.
+
+(** the same program on the code as it is: well-formed, the second Evict changes nothing, one eviction is sent;
+    with a checkpoint and a rollback around the second Evict; followed by Unevict (nothing is
+    sent); followed by Discard (the projection of the session is the initial one) *)
+Theorem commit_evict_twice_once :
+  wf_from any_task nofail [] false w3_init ([Evict 3; Evict 3] ++ [Commit]) = true
+  /\ forallb open_cmd [Evict 3; Evict 3] = true
+  /\ Session.run nofail w3_init [Evict 3; Evict 3] = Session.run nofail w3_init [Evict 3]
+  /\ snd (step nofail (Session.run nofail w3_init [Evict 3; Evict 3]) Commit) = [AEvict 3]
+  /\ wf_from any_task nofail [] false w3_init ([Evict 3; Checkpoint; Evict 3; Rollback 1] ++ [Commit]) = true
+  /\ snd (step nofail (Session.run nofail w3_init [Evict 3; Checkpoint; Evict 3; Rollback 1]) Commit) = [AEvict 3]
+  /\ wf_from any_task nofail [] false w3_init ([Evict 3; Evict 3; Unevict 3] ++ [Commit]) = true
+  /\ snd (step nofail (Session.run nofail w3_init [Evict 3; Evict 3; Unevict 3]) Commit) = []
+  /\ wf_from any_task nofail [] false w3_init ([Evict 3; Evict 3] ++ [Discard]) = true
+  /\ project (Session.run nofail w3_init ([Evict 3; Evict 3] ++ [Discard])) = project w3_init.
 Proof. repeat split; vm_compute; reflexivity. Qed.
 
 (** Non-vacuity: W10 (evict, nested checkpoints, move to the node's other
@@ -3183,12 +3576,8 @@ Theorem discard_restores_partial_log fails S prog :
   /\ s_log (Session.run fails S (prog ++ [Discard])) = [].
 Proof.
   intros L K Op W. split; [apply discard_restores_partial; assumption|].
-  destruct (run_once fails prog S [] [] [S] Op) with (c := Discard) as (_ & _ & Ks).
-  - apply Hist_init; [exact neq_refl|exact L|exact K].
-  - split; [reflexivity|intros c x []].
-  - rewrite L. apply once_nil.
-  - exact W.
-  - rewrite run_app. cbn [Session.run fold_left]. unfold step, step_full. rewrite Ks. reflexivity.
+  destruct (run_once_init fails S prog Discard L K Op W) as (_ & _ & Ks & _).
+  rewrite run_app. cbn [Session.run fold_left]. unfold step, step_full. rewrite Ks. reflexivity.
 Qed.
 
 (** the accepted resources of a gpu-memory pod depend on the node (W11: nodes with 100 and 200 MiB GPUs) and a
